@@ -177,8 +177,14 @@ type textProgressBar struct {
 	colorB          *colorful.Color
 }
 
+const kMaxTmuxPaneColumns = 10000
+
 func newTextProgressBar(writer io.Writer, columns int32, tmuxPaneColumns int32,
 	tmuxPrefix, colorPair string) *textProgressBar {
+	// the pane width is announced by the other side, no real pane is that wide
+	if tmuxPaneColumns > kMaxTmuxPaneColumns {
+		tmuxPaneColumns = kMaxTmuxPaneColumns
+	}
 	if tmuxPaneColumns > 1 {
 		columns = tmuxPaneColumns - 1 //  -1 to avoid messing up the tmux pane
 	}
